@@ -111,6 +111,46 @@ def nameLookup (i : Nat) : Out Imp :=
      | some r => mapOut (Imp.byName h) (cstr r))
   | none => .ok (.byOrdinal ((i + T.base) % 65536))
 
+/-! #### lookup by name on ANY table: the set of acceptable answers
+
+On a table that is not sorted, or that carries a name twice, "the entry of the name `q`" is not a
+function of the tables (`nameDetermined` fails) — but the format still says which answers are
+*acceptable*: an entry the table associates with a name-table index whose string is `q`.  Written from
+the format and the documentation of `By::name` ("If the name table isn't sorted, certain exported
+functions may fail to be found"), not from the search loop. -/
+
+/-- what the table associates with the name `q`: for every hint whose name reads as `q`, in table
+order, what that hint denotes (an entry, Null for a hole, Bounds for an index outside the address
+table / a missing ordinal-table slot, the error of an unreadable forwarder string) -/
+def namedEntries (q : List Nat) : List (Out Sym) := (hintsOf T cstr q).map (hint T cstr)
+
+/-- a name that cannot be read, as the failure of a lookup that had to read it -/
+def readFailure : Out (List Nat) → Option (Out Sym)
+  | .ok _ => none
+  | .err e => some (.err e)
+  | .panic s => some (.panic s)
+  | .ub s => some (.ub s)
+  | .diverge => some .diverge
+
+/-- the failures of reading the names of the table, in table order -/
+def nameReadFailures : List (Out Sym) :=
+  (List.range T.names.length).filterMap fun h => readFailure (nameOfHint T cstr h)
+
+/-- The ACCEPTABLE ANSWERS of a lookup by name (`name q`, `hint_name _ q`, `import ByName{_, q}`):
+
+* what any one of the hints named `q` denotes (`namedEntries`) — which of them is not prescribed;
+* Null when no hint is named `q`;
+* on a table that is not `sorted` (a name unreadable or smaller than its predecessor — the format
+  promises the search nothing there) additionally Null (an existing name may be missed) and the
+  failure of reading any name of the table.
+
+Never an entry of a different name, and on a sorted table — duplicates or not — never Null for a
+name whose entries are all present. -/
+def acceptName (q : List Nat) : List (Out Sym) :=
+  namedEntries T cstr q ++
+  ((if (namedEntries T cstr q).isEmpty || !sorted T cstr then [.err .null] else []) ++
+   (if sorted T cstr then [] else nameReadFailures T cstr))
+
 end
 
 /-- get_proc_address: image base + rva for real symbols inside the image, Null for forwarders -/
